@@ -16,7 +16,7 @@ import ast
 from engine.cfg import call_name, cfg_of
 from engine.errors import AnalysisError
 from engine.repo import walk_no_nested
-from engine.util import calls_in, local_assignments, unparse
+from engine.util import calls_in, local_assignments, unparse, xsrc
 
 ID = 'C18'
 DC = 'sdc11073.xml_types.dataconverters'
@@ -133,7 +133,7 @@ def run(ctx):  # noqa: C901, PLR0912
            fi=dx or tx)
     # Decimal reader uses Decimal()
     rdx = dc.methods.get('to_py')
-    src = unparse(rdx.node)
+    src = xsrc(rdx)
     ctx.ob('C18.R3', 'decimal reader', 'Decimal(xml_value)' in src and 'USE_DECIMAL_TYPE' in src,
            'DecimalConverter.to_py builds a Decimal from the lexical value when USE_DECIMAL_TYPE is set', fi=rdx)
     v, _ = repo.class_attr(dc.qual, 'USE_DECIMAL_TYPE')
@@ -209,7 +209,7 @@ def run(ctx):  # noqa: C901, PLR0912
            'IntegerConverter.to_py parses with int() (raises for non-integers)', fi=ic)
     pd = repo.func('sdc11073.xml_types.isoduration.parse_duration')
     ctx.ob('C18.R4', 'duration lexical space', any(isinstance(n, ast.Raise) for n in walk_no_nested(pd.node)) and
-           'REGEX' in unparse(pd.node).upper(), 'parse_duration matches the SDPI duration pattern and raises otherwise',
+           'REGEX' in xsrc(pd).upper(), 'parse_duration matches the SDPI duration pattern and raises otherwise',
            fi=pd)
 
 
